@@ -112,7 +112,7 @@ def run(tier):
         navv += D.gen_forests("navcu", n, wd)       # imported units that are ordinary compile units
     # self-test of the model: with the reading context of the pinned find_attribute (chains of two or more
     # references read in the context of the DIE they started from) AttrOK fails
-    pv = D.gen_forests("attr", 3, wd, pinned={"PinnedCtx": True})
+    pv = D.gen_forests("chain", 6, wd, shards=1, pinned={"PinnedCtx": True})
     if all(v["ok"]["attr"] for v in pv):
         raise common.ToolError("Dwarf.tla: PinnedCtx is not caught by AttrOK")
     context_chains(vd, drv, wd)
